@@ -2,9 +2,9 @@ package main
 
 import (
 	"fmt"
-	"os"
 	"go/constant"
 	"go/types"
+	"os"
 	"strings"
 )
 
@@ -19,15 +19,15 @@ func sfail(format string, args ...interface{}) {
 
 // SpecEnv evaluates contract expressions against a symbolic state.
 type SpecEnv struct {
-	e     *Env
-	s     *State
-	old   *State
-	vars  map[string]Value
-	pkg   string // short package name used for unqualified names
-	depth int
-	qn    *int
+	e       *Env
+	s       *State
+	old     *State
+	vars    map[string]Value
+	pkg     string // short package name used for unqualified names
+	depth   int
+	qn      *int
 	witness map[string]Value // existential variable -> witness value (proof-side instantiation)
-	loopSt *State // state at entry of the innermost loop being specified (for atloop(e))
+	loopSt  *State           // state at entry of the innermost loop being specified (for atloop(e))
 	// closure invariants are checked against an unknown number of earlier calls of the closure:
 	// old(e) inside them denotes the value e had when the higher-order callee was entered, which
 	// the closure body sees only as an unknown constant (one per syntactic old(...) occurrence)
@@ -806,7 +806,7 @@ func (se *SpecEnv) callSpec(sf *SpecFunc, args []Expr) Value {
 		for _, n := range names {
 			argT = append(argT, se.e.heapGet(se.s, n, se.s.hsort[n]))
 			argS = append(argS, se.s.hsort[n])
-			fname += "" 
+			fname += ""
 		}
 		fname += fmt.Sprintf("!%d", len(names))
 		se.e.ctx.declFun(fname, argS, "Bool")
